@@ -9,6 +9,7 @@ import Enc.Lemmas.ProtoPtrChains
 import Enc.Lemmas.ProtoPtrsMain
 import Enc.Lemmas.ProtoMsgField
 import Enc.Lemmas.ProtoMsgRoundTrip
+import Enc.Lemmas.ProtoMsgRoundTripStrict
 import Enc.Lemmas.ProtoMsgDecodeSound
 /-!
 # C03 — proto: Unmarshal(Marshal(v)) == v and Size(v) == len(Marshal(v))
@@ -353,17 +354,25 @@ Three layers (proofs: Enc/Lemmas/ProtoMsgDecode*.lean, ProtoOpaque*.lean, ProtoM
     messages and defined types. NOT inside: `*T` as a field or map value, because `*[]byte` is outside `tyOK`
     (`ProtoOpaque.ptr_leaf_excluded`; covered by layer 1 and by the differential harness). Value hypotheses: those of the
     `_ptrs` theorems at `(ob t, ov t v)` (`ov`: a nil leaf is the empty byte string). Comparison by `canonical (ob t)`, which
-    treats a leaf as the byte string it is; by `canonical t` under `opaquePlain t` (the underlying type of every leaf is a
+    treats a leaf as the byte string it is; by `canonical t` in the `…_canon` theorems further down (since the repair of `canonTy`);
+    HISTORICAL, the `_plain` theorem: by `canonical t` under `opaquePlain t` (the underlying type of every leaf is a
     scalar / string / bytes / array: `Spec.Protobuf.canonTy` has no catch-all case for an opaque leaf and looks INTO its
     underlying type on values other than `.str []` — harmless on real values, visible in a ∀-statement; recorded);
  3. the user's methods on top: `Unmarshal` = payload-level `Unmarshal` followed by the user's `Unmarshal` at every leaf, for
     user types whose `Unmarshal` overwrites its receiver and accepts every input (`Lenient ops`: RawMessage, the harness zoo at
     payload level); for ARBITRARY user methods: whatever the decoder accepts, the payload-level decoder accepts
     (`unmarshal_opaque_sound`).
-NOT PROVED (full statement): `unmarshal_marshal_opaque` for user methods whose `Unmarshal` can FAIL —
-  `LeavesOK ops c u → (∀ leaf s of u, ops.unmarshal .nil (pay ops s) = .ok s) → unmarshalUsr ops t (marshal bytes) = .ok u'`, `u' ≈ u`
-— it needs the invariant that the decoder hands each leaf of a `Marshal` output to the user exactly once (the user's error on any
-other chunk would abort the call); layers 1–3 are what is proved of it. -/
+User methods whose `Unmarshal` can FAIL (or merge): layer 4 below (`unmarshal_opaque_observed`,
+`unmarshal_marshal_opaque_failing_partial`) — the round trip for ARBITRARY user methods under the contract
+`Unmarshal(Marshal(s)) = s` on the leaves `s` of the value, given THE INVARIANT `PresentsLeavesOnce`: on the bytes `Marshal` wrote,
+the decoder calls a user `Unmarshal` only on a zero receiver and only with the encoding of a leaf (stated with an OBSERVER type in
+place of the user's: a property of the decoder alone, no user code in it; decidable by running the model, as the example does,
+and as the driver op `proto.msgroundtrip` does on EVERY generated message with user types — a failure would show as drift).
+NOT PROVED (full statement): `unmarshal_marshal_opaque` = the same WITHOUT the hypothesis `hinv`, i.e.
+  `∀ fs u, [the other hypotheses] → PresentsLeavesOnce ops (.struct fs) u`
+— it needs the structural round-trip proof (ProtoRoundTrip / ProtoMapRoundTrip and the three translation layers above it) redone for
+the decoder with the observer: the translation `ob` (user type ↦ `[]byte`) removes the very codec the observer sits on, so the
+payload-level theorems cannot see overwritten leaves. -/
 
 open Lemmas.ProtoMsgDecode in
 /-- layer 1: the leaf round trip, literal, for arbitrary user methods. `hm`, `hs`: the contract of `Marshal`; `hrt`: the user's
@@ -475,5 +484,100 @@ example : LeavesOK rawOps (codecOf (.struct exOFields)) (.struct exOVals)
 
 example : Lemmas.ProtoMsgDecode.Lenient rawOps ∧ Lemmas.ProtoMsgDecode.Lenient zooOps :=
   ⟨⟨fun _ _ => rfl, fun _ => ⟨_, rfl⟩⟩, ⟨fun _ _ => rfl, fun _ => ⟨_, rfl⟩⟩⟩
+
+/-! ### layers 2 and 1–3 compared at the type itself: `Spec.Protobuf.canonTy` now has a catch-all case for the opaque leaf
+(`| .named "RawMessage" _, v => v`), so `canonical t` compares a user value as the byte string it is whatever its underlying type;
+the hypothesis `opaquePlain` of `unmarshal_marshal_map_partial_opaque_plain` is no longer needed -/
+
+open Lemmas.ProtoOpaque in
+theorem unmarshal_marshal_partial_opaque_canon (fs : Fields) (v : Val)
+    (hty : tyOK4 (.struct fs) = true) (hp : ptrsOK4 (.struct fs) v = true) (hv : hasType4 (.struct fs) v = true)
+    (hne : noEmptyPtr4 (.struct fs) v = true) (hlen : (marshal (.struct fs) v).length < 2 ^ 64)
+    (hdep : Codec.nesting (codecOf (.struct fs)) ≤ Gen.c_proto_maxDepth) :
+    ∃ v', unmarshal (.struct fs) (marshal (.struct fs) v) = .ok v'
+      ∧ Spec.Protobuf.canonical (.struct fs) v' = Spec.Protobuf.canonical (.struct fs) v :=
+  Lemmas.ProtoOpaque.unmarshal_marshal_partial_opaque_canon fs v hty hp hv hne hlen hdep
+
+open Lemmas.ProtoOpaque in
+theorem unmarshal_marshal_map_partial_opaque_canon (fs : Fields) (v : Val)
+    (hty : tyOKM4 (.struct fs) = true) (hp : ptrsOK4 (.struct fs) v = true) (hv : hasTypeM4 (.struct fs) v = true)
+    (hne : valOKM4 (.struct fs) v = true) (hlen : (marshal (.struct fs) v).length < 2 ^ 64)
+    (hdep : Codec.nesting (codecOf (.struct fs)) ≤ Gen.c_proto_maxDepth) :
+    ∃ v', unmarshal (.struct fs) (marshal (.struct fs) v) = .ok v'
+      ∧ Spec.Protobuf.canonical (.struct fs) v' = Spec.Protobuf.canonical (.struct fs) v :=
+  Lemmas.ProtoOpaque.unmarshal_marshal_map_partial_opaque_canon fs v hty hp hv hne hlen hdep
+
+open Lemmas.ProtoMsg Lemmas.ProtoOpaque Lemmas.ProtoMsgDecode in
+theorem unmarshal_marshal_opaque_partial_canon (ops : UserOps) (L : Lenient ops) (fs : Fields) (u : Val)
+    (hc : LeavesOK ops (codecOf (.struct fs)) u) (hk : keysPlain (codecOf (.struct fs)) = true)
+    (hty : tyOKM4 (.struct fs) = true)
+    (hp : ptrsOK4 (.struct fs) (absV ops (codecOf (.struct fs)) u) = true)
+    (hv : hasTypeM4 (.struct fs) (absV ops (codecOf (.struct fs)) u) = true)
+    (hne : valOKM4 (.struct fs) (absV ops (codecOf (.struct fs)) u) = true)
+    (hlen : (marshal (.struct fs) (absV ops (codecOf (.struct fs)) u)).length < 2 ^ 64)
+    (hdep : Codec.nesting (codecOf (.struct fs)) ≤ Gen.c_proto_maxDepth) :
+    ∃ b w', marshalUsr ops (.struct fs) u = .ok b
+      ∧ unmarshalUsr ops (.struct fs) b = .ok (concV ops (codecOf (.struct fs)) w')
+      ∧ Spec.Protobuf.canonical (.struct fs) w' = Spec.Protobuf.canonical (.struct fs) (absV ops (codecOf (.struct fs)) u) :=
+  Lemmas.ProtoMsg.unmarshal_marshal_usr_partial_canon ops L fs u hc hk hty hp hv hne hlen hdep
+
+/-- non-vacuity of the three: the hypotheses are those of the `_opaque` theorems above (`exO_hyps`, `exOU_hyps`); the type has a
+user type of STRUCT kind (`ZRec`), outside `opaquePlain` -/
+example : Lemmas.ProtoOpaque.opaquePlain (.struct Lemmas.ProtoOpaque.exOFields) = false := by decide
+
+/-! ### layer 4: user methods whose `Unmarshal` can fail -/
+
+open Lemmas.ProtoMsgDecode in
+/-- the decoder against an OBSERVER of its calls (`guardOps G`: a user type that accepts a byte string only on a zero receiver and
+only when `G` holds of it, and stores it): whatever `Unmarshal` accepts with the observer in place of the user types, it accepts
+with ANY user methods that accept the byte strings of `G` on a zero receiver — the result is the observer's, with the user's
+`Unmarshal` applied at every leaf. Nothing is assumed about the user's behaviour on other inputs or other receivers. -/
+theorem unmarshal_opaque_observed (ops : UserOps) (G : Bytes → Bool)
+    (hG : ∀ q, G q = true → ∃ u, ops.unmarshal .nil q = .ok u) (t : Ty) (b : Bytes)
+    (hk : keysPlain (codecOf t) = true) (w : Val) (h : unmarshalUsr (guardOps G) t b = .ok w) :
+    unmarshalUsr ops t b = .ok (concV ops (codecOf t) w) :=
+  Lemmas.ProtoMsgDecode.unmarshalUsr_guard hG t b hk w h
+
+open Lemmas.ProtoMsg Lemmas.ProtoMsgDecode in
+/-- the user's `Unmarshal` at every leaf of the payload-level value of `u` restores `u` literally (contract: `RoundTrips`) -/
+theorem opaque_leaves_restored (ops : UserOps) (c : Codec) (u : Val) (hw : EntWF c) (h : RoundTrips ops c u) :
+    concV ops c (absV ops c u) = u :=
+  Lemmas.ProtoMsg.concV_absV ops c u hw h
+
+open Lemmas.ProtoMsg Lemmas.ProtoOpaque Lemmas.ProtoMsgDecode in
+/-- **the whole-message round trip for user methods that can fail** (ARBITRARY `ops`; `hc`: `Marshal` fills `Size()` bytes;
+`hrt`: `Unmarshal(Marshal(s)) = .ok s` on a zero receiver for the leaves `s` of `u`; `hinv`: the invariant, see above — the part
+not yet proved in general). `Marshal` succeeds with bytes `b`; `Unmarshal b` succeeds with `concV ops _ w'`, `w'` canonically equal
+(nil-versus-empty) to the payload-level value of `u`, whose `concV` is `u` itself. -/
+theorem unmarshal_marshal_opaque_failing_partial (ops : UserOps) (fs : Fields) (u : Val)
+    (hc : LeavesOK ops (codecOf (.struct fs)) u) (hrt : RoundTrips ops (codecOf (.struct fs)) u)
+    (hinv : PresentsLeavesOnce ops (.struct fs) u)
+    (hk : keysPlain (codecOf (.struct fs)) = true) (hw : EntWF (codecOf (.struct fs)))
+    (hty : tyOKM4 (.struct fs) = true)
+    (hp : ptrsOK4 (.struct fs) (absV ops (codecOf (.struct fs)) u) = true)
+    (hv : hasTypeM4 (.struct fs) (absV ops (codecOf (.struct fs)) u) = true)
+    (hne : valOKM4 (.struct fs) (absV ops (codecOf (.struct fs)) u) = true)
+    (hlen : (marshal (.struct fs) (absV ops (codecOf (.struct fs)) u)).length < 2 ^ 64)
+    (hdep : Codec.nesting (codecOf (.struct fs)) ≤ Gen.c_proto_maxDepth) :
+    ∃ b w', marshalUsr ops (.struct fs) u = .ok b
+      ∧ unmarshalUsr ops (.struct fs) b = .ok (concV ops (codecOf (.struct fs)) w')
+      ∧ Spec.Protobuf.canonical (.struct fs) w' = Spec.Protobuf.canonical (.struct fs) (absV ops (codecOf (.struct fs)) u)
+      ∧ concV ops (codecOf (.struct fs)) (absV ops (codecOf (.struct fs)) u) = u :=
+  Lemmas.ProtoMsg.unmarshal_marshal_usr_strict ops fs u hc hrt hinv hk hw hty hp hv hne hlen hdep
+
+open Lemmas.ProtoMsg Lemmas.ProtoOpaque Lemmas.ProtoMsgDecode in
+/-- non-vacuity: `magicOps` — `Unmarshal` REJECTS payloads starting with 0xFF and APPENDS to a non-zero receiver (neither lenient nor
+overwriting) — on the type of the previous example with 12 user values (field, elements, pointer elements, map values, inside a
+nested message, struct-kind `ZRec`); all hypotheses hold, the invariant by running the model with the observer -/
+example : magicOps.unmarshal .nil [0xFF, 1] = .err "user: bad magic" ∧ magicOps.unmarshal (.str [1]) [2] = .ok (.str [1, 2])
+    ∧ LeavesOK magicOps (codecOf (.struct exOFields)) (.struct exSVals)
+    ∧ RoundTrips magicOps (codecOf (.struct exOFields)) (.struct exSVals)
+    ∧ PresentsLeavesOnce magicOps (.struct exOFields) (.struct exSVals)
+    ∧ keysPlain (codecOf (.struct exOFields)) = true ∧ EntWF (codecOf (.struct exOFields))
+    ∧ tyOKM4 (.struct exOFields) = true
+    ∧ ptrsOK4 (.struct exOFields) (absV magicOps (codecOf (.struct exOFields)) (.struct exSVals)) = true
+    ∧ hasTypeM4 (.struct exOFields) (absV magicOps (codecOf (.struct exOFields)) (.struct exSVals)) = true
+    ∧ valOKM4 (.struct exOFields) (absV magicOps (codecOf (.struct exOFields)) (.struct exSVals)) = true
+    ∧ (marshal (.struct exOFields) (absV magicOps (codecOf (.struct exOFields)) (.struct exSVals))).length < 2 ^ 64 := exS_hyps
 
 end Enc.Props.C03
